@@ -95,6 +95,9 @@ def explore(ctx, extended=False, focus=None):
             if d:
                 deviated = True
                 sig = instr_sig(r.case, r.regs, i); sig["dev"] = "wrong-value"
+                if "X" in sig["operands"] or "F" in sig["operands"]:
+                    ex.count("skipped:fixed-point-operand (C14's subject)")
+                    break
                 try:
                     gv = ref.parse_val(got)[0]
                     sig["detail"] = "congruent-mod-p" if (R.regs[i][0] == "I" and gv[0] in "ILB" and (gv[1] - R.regs[i][1]) % r.case.cfg["p"] == 0) else "different"
